@@ -308,6 +308,8 @@ class Check(BaseCheck):
         seen = []
         p = hotxlfp.Parser()
         p.on('callCellValue', lambda cell, setter: seen.append(cell))
+        ranges = []
+        p.on('callRangeValue', lambda a, b, setter: ranges.append((a, b)))
         for _ in range(spec['n']):
             lab, (ca, ci, ra, ri) = self._rand_label(rnd)
             del seen[:]
@@ -328,8 +330,19 @@ class Check(BaseCheck):
                 if rnd.random() < 0.5:          # small coordinates: both labels are met again and again, in every order
                     lab2, m2 = self._small_label(rnd)
                     lab, (ca, ci, ra, ri) = self._small_label(rnd)
-                p.parse('%s:%s' % (lab, lab2))
-                p.parse('SUM(%s:%s)' % (lab2, lab))
+                # the range event: each corner carries the row part of one written corner and the column part of one (the smaller index
+                # first, the written order when they are equal), each part with its own $ marker, and a label that says the same
+                for first, (fa, fi, fra, fri), second, (sa, si, sra, sri) in ((lab, (ca, ci, ra, ri), lab2, m2), (lab2, m2, lab, (ca, ci, ra, ri))):
+                    del ranges[:]
+                    p.parse('SUM(%s:%s)' % (first, second))
+                    rec.case()
+                    (c1, c1a), (c2, c2a) = ((fi, fa), (si, sa)) if fi <= si else ((si, sa), (fi, fa))
+                    (r1, r1a), (r2, r2a) = ((fri, fra), (sri, sra)) if fri <= sri else ((sri, sra), (fri, fra))
+                    want = [(c1, c1a, r1, r1a, m.compose(c1a, c1, r1a, r1)), (c2, c2a, r2, r2a, m.compose(c2a, c2, r2a, r2))]
+                    got = [(x.col.index, bool(x.col.is_absolute), x.row.index, bool(x.row.is_absolute), x.label) for x in (ranges[0] if ranges else ())]
+                    if got != want:
+                        rec.violation('C19/parser:range-event-corners', formula='SUM(%s:%s)' % (first, second), got=got, expected=want)
+                    rec.nt(('range', first, second))
                 for l, (xa, xi, ya, yi) in ((lab, (ca, ci, ra, ri)), (lab2, m2)):
                     rec.case()
                     try:
